@@ -64,20 +64,36 @@ def read_records(data, stream=None, limit=None, offset=None):
             stream = MonitoredStream(data)
     recs = []
     exc = None
+    it = None
     try:
-        for r in DiffXReader(stream):
-            recs.append(copy.deepcopy(project(r)))
-            try:
-                for v in r.values():
-                    if isinstance(v, dict):
-                        v.clear()
-                r.clear()
-            except Exception:
-                pass
-            if limit is not None and len(recs) >= limit:
-                break
-    except Exception as e:  # classified by the caller
+        it = iter(DiffXReader(stream))
+    except Exception as e:
         exc = e
+    while it is not None:
+        try:
+            r = next(it)
+        except StopIteration:
+            break
+        except Exception as e:  # classified by the caller
+            exc = e
+            break
+        # from here on it is the harness at work, not the reader
+        try:
+            recs.append(copy.deepcopy(project(r)))
+        except RecursionError:
+            # metadata nested deeper than this stack can copy
+            recs.append(project(r))
+            _rr['uncopied'] = _rr.get('uncopied', 0) + 1
+            continue
+        try:
+            for v in r.values():
+                if isinstance(v, dict):
+                    v.clear()
+            r.clear()
+        except Exception:
+            pass
+        if limit is not None and len(recs) >= limit:
+            break
     return recs, exc, stream
 
 
@@ -375,3 +391,80 @@ def replay_reader_concurrency(case, obs):
         return check_interleaved_readers(obs, case['datas'],
                                          case['interleaved'])
     return replay_concurrent(case, obs, reader_thunk)
+
+
+# ------------------------------------------------------------ real streams
+# What programs actually hand to the reader: a buffered or unbuffered file,
+# or a decompressing stream over a .diffx.gz / .bz2 / .xz (whose fileno()
+# and on-disk size describe the compressed file, not the document).
+STREAM_KINDS = ('file', 'file_unbuffered', 'file_small_buffer', 'gzip',
+                'bz2', 'lzma')
+
+
+def _scratch_dir():
+    import tempfile
+    import os
+    base = '/dev/shm' if os.path.isdir('/dev/shm') else None
+    return tempfile.mkdtemp(prefix='verif-streams-', dir=base)
+
+
+def read_via_real_streams(data, kinds=STREAM_KINDS):
+    """{kind: (records, exception)} of reading ``data`` through each kind of
+    real stream."""
+    import bz2
+    import gzip
+    import lzma
+    import os
+    import shutil
+    d = _scratch_dir()
+    out = {}
+    try:
+        for kind in kinds:
+            path = os.path.join(d, 'doc.diffx')
+            if kind == 'gzip':
+                path += '.gz'
+                with gzip.open(path, 'wb') as fh:
+                    fh.write(data)
+                op = lambda: gzip.open(path, 'rb')  # noqa
+            elif kind == 'bz2':
+                path += '.bz2'
+                with bz2.open(path, 'wb') as fh:
+                    fh.write(data)
+                op = lambda: bz2.open(path, 'rb')  # noqa
+            elif kind == 'lzma':
+                path += '.xz'
+                with lzma.open(path, 'wb') as fh:
+                    fh.write(data)
+                op = lambda: lzma.open(path, 'rb')  # noqa
+            else:
+                with open(path, 'wb') as fh:
+                    fh.write(data)
+                buffering = {'file': -1, 'file_unbuffered': 0,
+                             'file_small_buffer': 17}[kind]
+                op = lambda: open(path, 'rb', buffering=buffering)  # noqa
+            with op() as fh:
+                recs, exc, _ = read_records(data, stream=MonitoredStream(
+                    raw=fh))
+            out[kind] = (recs, exc)
+    finally:
+        shutil.rmtree(d, ignore_errors=True)
+    return out
+
+
+def check_real_streams(data, obs, case, kinds=STREAM_KINDS, tag='stream'):
+    """Reading through any real stream must give what reading the same
+    bytes from memory gives (records; same kind of outcome)."""
+    base, bexc, _ = read_records(data, offset=0)
+    got = read_via_real_streams(data, kinds)
+    for kind, (recs, exc) in got.items():
+        obs.count('real_stream_reads:%s' % kind)
+        same_outcome = (exc is None) == (bexc is None) and (
+            exc is None or is_parse_error(exc) == is_parse_error(bexc))
+        if not same_outcome or diff_records(base, recs) is not None:
+            obs.violation('%s_kind_changes_outcome:%s' % (
+                tag, 'compressed' if kind in ('gzip', 'bz2', 'lzma')
+                else kind), dict(case, stream_kind=kind),
+                {'in_memory': repr(bexc)[:200], 'through_stream':
+                 repr(exc)[:200], 'diff': diff_records(base, recs)})
+            return False
+    return True
